@@ -7,4 +7,4 @@ From GV Require Import Base.W64 Base.F64 Num.Model Num.Spec Num.Ops Num.ForLoop 
 Extraction Language OCaml.
 Extraction "model.ml" Z.add N.add Nat.add Pos.add
   F64.of_bits F64.to_bits F64.go_f2i F64.of_int
-  Ops.eval_im Ops.eval_s ForLoop.for_im ForLoop.for_s StrSpec.s_str2number StrSpec.s_tonumber_base.
+  Ops.eval_im Ops.eval_s ForLoop.for_im ForLoop.for_s StrSpec.s_str2number StrSpec.s_tonumber_base Spec.s_to_int.
